@@ -304,7 +304,7 @@ pub fn run_c08(tier: Tier, seed: u64, index: u64, scratch: &Scratch, rec: &mut R
                     1 => vec![FsOp::Write { path: "sentinel".into(), content: "created by inspection".into() }],
                     2 => vec![FsOp::Append { path: "pre-existing".into(), content: "modified".into() }],
                     4 => vec![],
-                    5 => vec![FsOp::Write { path: "forbidden".into(), content: "x".into() }],
+                    5 => vec![],
                     _ => vec![FsOp::Remove { path: "pre-existing".into() }, FsOp::Write { path: "forbidden".into(), content: "x".into() }],
                 };
                 if fo >= 2 {
@@ -315,6 +315,10 @@ pub fn run_c08(tier: Tier, seed: u64, index: u64, scratch: &Scratch, rec: &mut R
                     t.work_files.push(("libfoo.so.1.0".into(), "ELF".into()));
                     t.work_links.push(("libfoo.so".into(), "libfoo.so.1.0".into()));
                     t.work_links.push(("libfoo.so.1".into(), "libfoo.so.1.0".into()));
+                    // a file the inspection's rules forbid lies in the directory from the start, somewhere
+                    // among the other entries
+                    t.work_files.push(("forbidden".into(), "x".into()));
+                    t.work_files.push(("zzz".into(), "y".into()));
                     t.arrivals = vec![r.next()];
                 }
                 if fo == 4 {
